@@ -526,6 +526,7 @@ class SimFS:
         self.fifos = {}         # path -> (bytes, ChunkSchedule, damaged offsets): named pipes
         self.symlinks = {}      # path -> target path
         self.whiteouts = set()  # real paths the tool "removed" (the real file is never touched)
+        self.misses = []        # paths below the working directory the tool looked for in vain
         self.dirs = set()       # directories the tool created
         self.log = EventLog()
 
@@ -1097,6 +1098,11 @@ class World:
                 p = posixpath.normpath(posixpath.join(posixpath.dirname(p), self.fs.symlinks[p]))
             else:
                 break
+        if not writing and p.startswith(self.vcwd) and p not in self.fs.files \
+                and p not in self.fs.fifos and p not in self.fs.symlinks and p not in self.fs.dirs \
+                and p not in self.fs.misses and len(self.fs.misses) < 64:
+            # passive log (the C12 simulator may let such a file appear in another process)
+            self.fs.misses.append(p)
         if writing or p.startswith(SIMROOT) or p in self.fs.files or p in self.fs.whiteouts \
                 or p in self.fs.fifos or p in self.fs.symlinks:
             return p
